@@ -175,6 +175,9 @@ var c18behaviours = []string{"honest", "honest", "honest", "different", "tamper"
 
 func scenC18(w *vsim.World, spec *vsim.Spec) {
 	rnd := w.NewRand("gen")
+	// in two runs of three the fan-out goroutines may lose the processor before any statement of
+	// splitListRequest / tryLocalThenRemotes (rule R9), e.g. between a backend answer and its report
+	w.PreemptOn = w.Choose("statement-preemption", 3) != 0
 	nRemotes := w.Range("remotes", 1, 4)
 	cfg := fedConfig{
 		remotes:  allRemoteIDs[:nRemotes],
